@@ -225,6 +225,8 @@ Definition exec (t c : nat) (g : glob) (r : Z) (i : instr) : option (glob * Z * 
     match lock_acq t g with None => None | Some (g', es) => Some (g', vsize g, [IUnlock], es) end
   (* addObjectsToBeDestroyed(obj): lock_guard; push_back(std::move(obj)) *)
   | IAddLock o =>
+    (* push_back into a destroyed vector is undefined behaviour (never reached: the gate of IDcGate) *)
+    if Nat.eqb (cstate g) 2 then Some (g, r, [IClear SRC_DROP [o]], [E K_FAULT 0 2]) else
     match lock_acq t g with
     | None => None
     | Some (g', es) => Some (log_add (set_vec g' (vec g' ++ [o])) o, r, [IUnlock], es)
